@@ -955,6 +955,73 @@ theorem basis_file_roundtrip_sparse (lib : AsdfLib) (hl : AsdfFaithful lib) (nam
           obtain ⟨b', h1, h2, h3, h4⟩ := fits_basis_sparse_roundtrip b c g m htm hg h hnd hshape file hw
           simp [bind, Except.bind, hd, ht, Except.map, hw, h1, h2, h3, h4, hg]
 
+/-- **The format read is the format written, for every accepted file name**: whatever the writer
+produced for `(filename, fmt)` is a file of exactly the format that `formatOf filename fmt` resolves
+to — which is the format the reader called with the same `(filename, fmt)` dispatches on.  With
+`fmt=None` the names accepted are those `_guess_file_format` knows (`guess_extensions`), an explicit
+`fmt` overrides the name altogether. -/
+theorem file_format_is_resolved_format (lib : AsdfLib) (name : List Char) (fmt : Option String) :
+    (∀ g st, writeGridFile lib name fmt g = .ok st → formatOf name fmt = .ok st.fmt) ∧
+    (∀ l f st, writeFieldFile lib l name fmt f = .ok st → formatOf name fmt = .ok st.fmt) ∧
+    (∀ b st, writeBasisFile lib name fmt b = .ok st → formatOf name fmt = .ok st.fmt) ∧
+    ((formatOf name none).toBool = true ↔ (guessFormat name).isSome = true) ∧
+    (∀ s, formatOf name (some s) = dispatch s) := by
+  refine ⟨?_, ?_, ?_, ?_, ?_⟩
+  · intro g st hw
+    unfold writeGridFile at hw
+    unfold formatOf
+    cases hr : resolveName name fmt with
+    | error e => simp [hr, bind, Except.bind] at hw
+    | ok s =>
+      cases hd : dispatch s with
+      | error e => simp [hr, hd, bind, Except.bind] at hw
+      | ok k =>
+        cases k <;> simp [hr, hd, bind, Except.bind, Except.map, writeGridAsdf, writeGridFits] at hw <;>
+          subst hw <;> simp [Except.bind, hd, Stored.fmt]
+  · intro l f st hw
+    unfold writeFieldFile at hw
+    unfold formatOf
+    cases hr : resolveName name fmt with
+    | error e => simp [hr, bind, Except.bind] at hw
+    | ok s =>
+      cases hd : dispatch s with
+      | error e => simp [hr, hd, bind, Except.bind] at hw
+      | ok k =>
+        cases k <;> simp only [hr, hd, bind, Except.bind, Except.map] at hw
+        · cases hx : writeFieldAsdf lib f with
+          | error e => simp [hx] at hw
+          | ok file => simp [hx] at hw; subst hw; simp [Except.bind, hd, Stored.fmt]
+        · cases hx : writeFieldFits f with
+          | error e => simp [hx] at hw
+          | ok file => simp [hx] at hw; subst hw; simp [Except.bind, hd, Stored.fmt]
+        · injection hw with hw; subst hw; simp [Except.bind, hd, Stored.fmt]
+  · intro b st hw
+    unfold writeBasisFile at hw
+    unfold formatOf
+    cases hr : resolveName name fmt with
+    | error e => simp [hr, bind, Except.bind] at hw
+    | ok s =>
+      cases ht : b.toDict with
+      | error e => simp [hr, ht, bind, Except.bind] at hw
+      | ok t =>
+        cases hd : dispatch s with
+        | error e => simp [hr, ht, hd, bind, Except.bind] at hw
+        | ok k =>
+          cases k <;> simp only [hr, ht, hd, bind, Except.bind, Except.map] at hw
+          · cases hx : writeBasisAsdf lib b with
+            | error e => simp [hx] at hw
+            | ok file => simp [hx] at hw; subst hw; simp [Except.bind, hd, Stored.fmt]
+          · cases hx : writeBasisFits b with
+            | error e => simp [hx] at hw
+            | ok file => simp [hx] at hw; subst hw; simp [Except.bind, hd, Stored.fmt]
+          · injection hw with hw; subst hw; simp [Except.bind, hd, Stored.fmt]
+  · unfold formatOf resolveName
+    cases hg : guessFormat name with
+    | none => simp [Except.bind, Except.toBool]
+    | some k => cases k <;> simp [Except.bind, Except.toBool, dispatch, Fmt.name, Fmt.ofName?]
+  · intro s
+    rfl
+
 /-! ## chains of file round trips -/
 
 /-- **Chains of files, of any length** (what the harness does with A > B > C): a grid that went
@@ -1065,10 +1132,7 @@ theorem field_file_chain (lib : AsdfLib) (hl : AsdfFaithful lib) (hops : List (L
         · right; simp [pyWeights_idem]
       · simpa [hk] using hx
 
-/-- **Chains of files for dense mode bases**, any length, any mixture of formats.  (Sparse bases go
-through the same `basisChain` in the driver and the harness; for them the single-hop theorem
-`basis_file_roundtrip_sparse` is what is proved — the FITS image path re-sparsifies, and carrying its
-shape invariant along a chain is not done.) -/
+/-- **Chains of files for dense mode bases**, any length, any mixture of formats.  (Sparse bases: `basis_file_chain_sparse`.) -/
 theorem basis_file_chain_dense (lib : AsdfLib) (hl : AsdfFaithful lib) (hops : List Hop)
     (b b' : ModeBasis) (a : Arr) (g : Grid) (ts : List Nat) (m : Nat)
     (htm : b.tm = .dense a) (hg : b.grid = some g) (h : g.Ok) (hnd : 0 < g.coords.ndim)
@@ -1110,6 +1174,271 @@ theorem basis_file_chain_dense (lib : AsdfLib) (hl : AsdfFaithful lib) (hops : L
         by_cases hk : k = .asdf
         · simp only [hk, if_true]; right; simp [pyWeights_idem]
         · simp only [hk, if_false]; right; trivial
+
+/-- One hop for a sparse basis, with what the next hop needs: the basis read is again a CSC matrix
+of the same shape with the same dense values (`todense()`), on the grid written (`pyWeights` form
+after an asdf file). -/
+theorem basis_file_hop_sparse (lib : AsdfLib) (hl : AsdfFaithful lib) (name : List Char)
+    (fmt : Option String) (c : Csc) (g : Grid) (m : Nat)
+    (h : g.Ok) (hnd : 0 < g.coords.ndim) (hshape : c.shape = [g.coords.size, m]) :
+    ∀ st, writeBasisFile lib name fmt ⟨.sparse c, some g⟩ = .ok st →
+      ∃ k c', formatOf name fmt = .ok k ∧
+        readBasisFile name fmt st = .ok ⟨.sparse c', if k = .asdf then some g.pyWeights else some g⟩ ∧
+        c'.shape = [g.coords.size, m] ∧ cscToDense c' = cscToDense c := by
+  unfold writeBasisFile readBasisFile formatOf
+  have ht : (⟨.sparse c, some g⟩ : ModeBasis).toDict = .ok (.dict [(.grid, g.toDict), (.tm, c.toDict),
+      (.isSparse, .bool true)]) := rfl
+  cases hr : resolveName name fmt with
+  | error e => simp [bind, Except.bind]
+  | ok s =>
+    cases hd : dispatch s with
+    | error e => simp [bind, Except.bind, hd, ht]
+    | ok k =>
+      cases k with
+      | asdf =>
+        have ha := asdf_basis_roundtrip lib hl ⟨.sparse c, some g⟩ g rfl h
+        cases hw : writeBasisAsdf lib ⟨.sparse c, some g⟩ with
+        | error e => simp [bind, Except.bind, hd, ht, Except.map, hw]
+        | ok file =>
+          rw [hw] at ha
+          simp only [Except.bind] at ha
+          simp [bind, Except.bind, hd, ht, Except.map, hw, ha]
+          exact hshape
+      | pickle =>
+        simp [bind, Except.bind, hd, ht, Except.map]
+        exact hshape
+      | fits =>
+        cases hw : writeBasisFits ⟨.sparse c, some g⟩ with
+        | error e => simp [bind, Except.bind, hd, ht, Except.map, hw]
+        | ok file =>
+          rcases fits_basis_sparse_read ⟨.sparse c, some g⟩ c g m rfl rfl h hnd hshape file hw with h1 | h1
+          · simp [bind, Except.bind, hd, ht, Except.map, hw, h1]
+            exact hshape
+          · obtain ⟨hs, hlen⟩ := cscToDense_shape c _ _ hshape
+            have heta : cscToDense c = ⟨(cscToDense c).dtype, [g.coords.size, m], (cscToDense c).data⟩ := by
+              rw [← hs]
+            simp [bind, Except.bind, hd, ht, Except.map, hw, h1]
+            refine ⟨?_, ?_⟩
+            · rw [heta]; rfl
+            · rw [heta, cscToDense_denseToCsc _ _ _ _ hlen]
+
+/-- **Chains of files for sparse mode bases**, any length, any file names, `fmt` arguments and
+mixture of formats (asdf / fits / fits.gz / pickle): whenever every hop can be written, the basis
+read at the end is **sparse** (a CSC matrix of the same shape), has the **same matrix**
+(`todense()` equal: the FITS image path re-sparsifies, which normalises explicit zeros, duplicates
+and index order and nothing else) and sits on the **same grid** (NumPy-scalar weights possibly as
+the Python number once an asdf file was among the hops).  Induction over the hop list from the
+single hop `basis_file_hop_sparse`, with the invariant "CSC of shape `[grid.size, m]` whose dense
+form is the original's". -/
+theorem basis_file_chain_sparse (lib : AsdfLib) (hl : AsdfFaithful lib) (hops : List Hop)
+    (b b' : ModeBasis) (c : Csc) (g : Grid) (m : Nat)
+    (htm : b.tm = .sparse c) (hg : b.grid = some g) (h : g.Ok) (hnd : 0 < g.coords.ndim)
+    (hshape : c.shape = [g.coords.size, m])
+    (hc : basisChain lib hops b = .ok b') :
+    b'.isSparse = true ∧ b'.denseArr = b.denseArr ∧
+      (∃ c', b'.tm = .sparse c' ∧ c'.shape = c.shape) ∧
+      (b'.grid = some g ∨ b'.grid = some g.pyWeights) := by
+  suffices H : ∀ (hops : List Hop) (cx : Csc) (gx : Grid),
+      cx.shape = [g.coords.size, m] → cscToDense cx = cscToDense c → (gx = g ∨ gx = g.pyWeights) →
+      basisChain lib hops ⟨.sparse cx, some gx⟩ = .ok b' →
+      ∃ c', b' = ⟨.sparse c', b'.grid⟩ ∧ c'.shape = [g.coords.size, m] ∧ cscToDense c' = cscToDense c ∧
+        (b'.grid = some g ∨ b'.grid = some g.pyWeights) by
+    obtain ⟨tm, og⟩ := b
+    simp only at htm hg
+    subst htm hg
+    obtain ⟨c', hb, hs, hd, hgr⟩ := H hops c g hshape rfl (Or.inl rfl) hc
+    refine ⟨by rw [hb]; rfl, ?_, ⟨c', by rw [hb], by rw [hs, hshape]⟩, hgr⟩
+    rw [hb]
+    simpa [ModeBasis.denseArr] using hd
+  intro hops
+  induction hops with
+  | nil =>
+    intro cx gx hs hd hgx hch
+    simp only [basisChain] at hch
+    injection hch with hch
+    subst hch
+    exact ⟨cx, rfl, hs, hd, by rcases hgx with rfl | rfl <;> simp⟩
+  | cons hop r ih =>
+    intro cx gx hs hd hgx hch
+    obtain ⟨n, fm⟩ := hop
+    have hgxok : gx.Ok ∧ 0 < gx.coords.ndim ∧ gx.coords.size = g.coords.size ∧ gx.pyWeights = g.pyWeights := by
+      rcases hgx with rfl | rfl
+      · exact ⟨h, hnd, rfl, rfl⟩
+      · exact ⟨h, hnd, rfl, pyWeights_idem g⟩
+    obtain ⟨hok, hnd', hsz, hpw⟩ := hgxok
+    simp only [basisChain, bind, Except.bind] at hch
+    cases hw : writeBasisFile lib n fm ⟨.sparse cx, some gx⟩ with
+    | error e => rw [hw] at hch; cases hch
+    | ok st =>
+      rw [hw] at hch
+      obtain ⟨k, c', _, hread, hs', hd'⟩ :=
+        basis_file_hop_sparse lib hl n fm cx gx m hok hnd' (by rw [hsz]; exact hs) st hw
+      simp only [hread] at hch
+      by_cases hk : k = .asdf
+      · simp only [hk, if_true] at hch
+        exact ih c' gx.pyWeights (by rw [← hsz]; exact hs') (hd'.trans hd) (Or.inr hpw) hch
+      · simp only [hk, if_false] at hch
+        exact ih c' gx (by rw [← hsz]; exact hs') (hd'.trans hd) hgx hch
+
+example : (basisChain AsdfLib.observed [("a.fits".toList, none), ("b.pkl".toList, none), ("c.dat".toList, some "asdf"),
+      ("d.fits.gz".toList, none)]
+    ⟨.sparse (denseToCsc ⟨"f8", [2, 3], [1, 0, 3, 4, 5, 0]⟩), some ⟨.cartesian, .regular [.float 1] [2] [.float 0], .null⟩⟩).map
+      (fun b => (b.isSparse, b.denseArr.data)) = .ok (true, [1, 0, 3, 4, 5, 0]) := by decide +kernel
+
+/-! ## dtypes: what each route does with kind, item size and byte order -/
+
+/-- `DType.all` is every well-formed dtype. -/
+theorem dtype_all_complete (d : DType) (h : d.wellFormed = true) : d ∈ DType.all := by
+  obtain ⟨k, n, o⟩ := d
+  simp only [DType.wellFormed, Bool.and_eq_true] at h
+  obtain ⟨hk, ho⟩ := h
+  have hn : n = 1 ∨ n = 2 ∨ n = 4 ∨ n = 8 ∨ n = 16 := by
+    cases k <;> simp only [Bool.or_eq_true, beq_iff_eq] at hk <;> omega
+  rcases hn with rfl | rfl | rfl | rfl | rfl <;> cases k <;> cases o <;> revert hk ho <;> decide
+
+example : DType.all.all DType.wellFormed = true := by decide
+
+/-- The table `fitsDtypeOk` (the executed guard of `writeFieldFits` / `writeBasisFits`) **is**
+astropy's `BITPIX` lookup succeeding, for every dtype and byte order. -/
+theorem fitsDtypeOk_iff_card (d : DType) (h : d.wellFormed = true) :
+    fitsDtypeOk d.tag = (fitsCard d).toBool := by
+  have : ∀ d ∈ DType.all, fitsDtypeOk d.tag = (fitsCard d).toBool := by decide
+  exact this d (dtype_all_complete d h)
+
+/-- **`write_rejects`**: the only refusals on account of the dtype are image HDUs of `bool`,
+`float16` and complex values (`KeyError` before anything is written); every other route accepts
+every dtype. -/
+theorem write_rejects (r : Route) (d : DType) (h : d.wellFormed = true) :
+    (readDType r d = .error .key ↔
+      (r = .fitsImageField ∨ r = .fitsImageBasis) ∧
+        (d.kind = .bool ∨ d.kind = .complex ∨ (d.kind = .float ∧ d.size = 2))) ∧
+    (∀ e, readDType r d = .error e → e = .key) := by
+  have H : ∀ d ∈ DType.all, ∀ r : Route,
+      (readDType r d = .error .key ↔
+        (r = .fitsImageField ∨ r = .fitsImageBasis) ∧
+          (d.kind = .bool ∨ d.kind = .complex ∨ (d.kind = .float ∧ d.size = 2))) ∧
+      (∀ e, readDType r d = .error e → e = .key) := by
+    intro d hd r
+    have hfin : ∀ d ∈ DType.all, ∀ r ∈ [Route.dict, .asdf, .pickle, .pickleObject, .fitsTree, .fitsImageField,
+          .fitsImageBasis],
+        (decide (readDType r d = .error .key) =
+          (decide (r = .fitsImageField ∨ r = .fitsImageBasis) &&
+            decide (d.kind = .bool ∨ d.kind = .complex ∨ (d.kind = .float ∧ d.size = 2)))) ∧
+        (match readDType r d with | .error e => decide (e = .key) | .ok _ => true) = true := by
+      decide
+    obtain ⟨h1, h2⟩ := hfin d hd r (by cases r <;> simp)
+    constructor
+    · constructor
+      · intro he
+        have : decide (readDType r d = .error .key) = true := decide_eq_true he
+        rw [h1] at this
+        simpa using this
+      · intro hc
+        have : (decide (r = .fitsImageField ∨ r = .fitsImageBasis) &&
+            decide (d.kind = .bool ∨ d.kind = .complex ∨ (d.kind = .float ∧ d.size = 2))) = true := by
+          simpa using hc
+        rw [← h1] at this
+        exact of_decide_eq_true this
+    · intro e he
+      rw [he] at h2
+      exact of_decide_eq_true h2
+  exact H d (dtype_all_complete d h) r
+
+/-- **`write_read_dtype_eq`**: whenever the write is accepted, the values read back have the same
+kind and item size; through a dictionary, an asdf file and the tree of a FITS file
+the byte order too; pickles and mode-basis images come back in native order. -/
+theorem write_read_dtype_eq (r : Route) (d d' : DType) (h : readDType r d = .ok d') :
+    d'.kind = d.kind ∧ d'.size = d.size ∧
+    ((r = .dict ∨ r = .asdf ∨ r = .fitsTree) → d' = d) ∧
+    ((r = .pickle ∨ r = .pickleObject ∨ r = .fitsImageBasis) → d'.order = d.native.order) := by
+  cases r <;> simp only [readDType, fitsImageDType, bind, Except.bind, Except.map] at h
+  case dict => injection h with h; subst h; simp
+  case asdf => injection h with h; subst h; simp
+  case fitsTree => injection h with h; subst h; simp
+  case pickleObject => injection h with h; subst h; simp [DType.native]
+  case pickle => injection h with h; subst h; simp [DType.native]
+  case fitsImageField =>
+    cases hc : fitsCard d with
+    | error e => rw [hc] at h; cases h
+    | ok c =>
+      rw [hc] at h
+      injection h with h
+      subst h
+      refine ⟨?_, ?_, by simp, by simp⟩ <;> (split <;> [rfl; (split <;> rfl)])
+  case fitsImageBasis =>
+    cases hc : fitsCard d with
+    | error e => rw [hc] at h; cases h
+    | ok c =>
+      rw [hc] at h
+      injection h with h
+      subst h
+      refine ⟨?_, ?_, by simp, ?_⟩
+      · split <;> [rfl; (split <;> rfl)]
+      · split <;> [rfl; (split <;> rfl)]
+      · intro _
+        simp only [DType.native]
+        split <;> [rfl; (split <;> rfl)]
+
+/-- **`write_read_values_eq`, FITS images**: for every dtype astropy takes, every value the dtype
+can hold is stored as a number that fits the storage type chosen by `BITPIX` (so nothing wraps or
+saturates: signed bytes and unsigned 16/32/64-bit integers are shifted by `BZERO` into the signed /
+unsigned range of the same width), and loading gives the value back.  For the other routes the
+values are the stored array itself (`field_dict_roundtrip`, `asdf_field_roundtrip`,
+`field_pickle_roundtrip`, …). -/
+theorem write_read_values_eq (d : DType) (c : FitsCard) (hc : fitsCard d = .ok c) :
+    (∀ v : Int, d.holds v = true → c.fits (v - c.bzero) = true ∧ c.store v = ((v - c.bzero : Int) : Rat)) ∧
+    (∀ q : Rat, c.load (c.store q) = q) := by
+  constructor
+  · intro v hv
+    constructor
+    · obtain ⟨k, n, o⟩ := d
+      simp only [fitsCard] at hc
+      split at hc <;> cases hc <;>
+        simp [DType.holds, FitsCard.fits] at hv ⊢ <;>
+        first
+          | omega
+          | (have h1 := of_decide_eq_true hv.1; have h2 := of_decide_eq_true hv.2; omega)
+          | (have h2 := of_decide_eq_true hv.2; have h1 := hv.1; omega)
+    · simp [FitsCard.store]
+  · intro q
+    simp only [FitsCard.load, FitsCard.store]
+    exact Rat.sub_add_cancel ..
+
+example : fitsCard ⟨.uint, 2, .big⟩ = .ok ⟨16, 32768⟩ ∧ (⟨.uint, 2, .big⟩ : DType).holds 65535 = true ∧
+    (⟨16, 32768⟩ : FitsCard).fits (65535 - 32768) = true ∧
+    readDType .fitsImageField ⟨.uint, 2, .big⟩ = .ok ⟨.uint, 2, .little⟩ := by decide
+
+/-! ## sparse storage formats assigned through the setter (D162) -/
+
+/-- The repaired `to_dict` of a basis that holds a **CSR** matrix (assigned through the
+`transformation_matrix` setter) emits arrays SciPy accepts as a CSC matrix of the same shape:
+1-D arrays of equal length and `len(indptr) = columns + 1`, for every CSR record. -/
+theorem csr_to_csc_wellformed (r : Csc) (n m : Nat) (hs : r.shape = [n, m]) :
+    (csrToCsc r).wellFormed = true ∧ (csrToCsc r).shape = r.shape := by
+  simp [csrToCsc, Csc.wellFormed, hs, cumul_length, Function.comp_def]
+
+/-- **Dictionary round trip for every sparse storage** (after the repair of D162): whatever the
+setter stored (CSC or CSR), `from_dict(to_dict(b))` is the sparse basis on the same grid whose matrix
+is the CSC conversion SciPy makes of the stored matrix.
+`_partial`: that this conversion has the same dense values (`cscToDense (csrToCsc r) = csrToDense r`)
+is not proved here — the stream `spstore` compares both sides (and the real `toarray()`) on every
+generated CSR matrix; formats without `indices` / `indptr` (COO, LIL, DIA, DOK) are converted by SciPy
+and not modelled (`SpStore.toCsc = none`). -/
+theorem sparse_store_dict_roundtrip_partial (s : SpStore) (c : Csc) (g : Grid) (h : g.Ok)
+    (hc : s.toCsc = some c) :
+    (ModeBasis.toDict ⟨.sparse c, some g⟩).bind (fun t => ModeBasis.fromDict t) = .ok ⟨.sparse c, some g⟩ ∧
+    (∀ r n m, s = .csr r → r.shape = [n, m] → c.wellFormed = true ∧ c.shape = [n, m]) := by
+  refine ⟨modebasis_dict_roundtrip ⟨.sparse c, some g⟩ g rfl h, ?_⟩
+  intro r n m hs hshape
+  subst hs
+  simp only [SpStore.toCsc] at hc
+  injection hc with hc
+  subst hc
+  have := csr_to_csc_wellformed r n m hshape
+  exact ⟨this.1, by rw [this.2, hshape]⟩
+
+example : (SpStore.csr ⟨⟨"f8", [3], [1, 3, 4]⟩, ⟨"i4", [3], [0, 2, 0]⟩, ⟨"i4", [3], [0, 2, 3]⟩, [2, 3]⟩).toCsc.map
+    (fun c => (c.wellFormed, (cscToDense c).data)) = some (true, [1, 0, 3, 4, 0, 0]) := by decide +kernel
 
 /-! ## Old — the unrepaired read/write paths and their counterexamples
 
@@ -1163,5 +1492,24 @@ theorem fits_repaired_on_counterexamples :
     (writeGridFits AsdfLib.observed ⟨.noneSys, .regular [.float 1] [3] [.float 0], .null⟩).bind readGridFits
       = .ok ⟨.noneSys, .regular [.float 1] [3] [.float 0], .null⟩ := by
   refine ⟨rfl, rfl, ?_, ?_, rfl⟩ <;> decide +kernel
+
+/-- CSR records of `[[1, 0, 3], [4, 0, 0]]` and of `[[1, 2], [0, 3]]` -/
+def exCsr23 : Csc := ⟨⟨"f8", [3], [1, 3, 4]⟩, ⟨"i4", [3], [0, 2, 0]⟩, ⟨"i4", [3], [0, 2, 3]⟩, [2, 3]⟩
+def exCsr22 : Csc := ⟨⟨"f8", [3], [1, 2, 3]⟩, ⟨"i4", [3], [0, 1, 1]⟩, ⟨"i4", [3], [0, 2, 3]⟩, [2, 2]⟩
+
+/-- D162: on the unrepaired tree a sparse basis whose matrix was assigned as **CSR** is written with
+the CSR arrays as they are.  For a 2 × 3 matrix SciPy rejects them on reading (`indptr` has
+rows + 1 = 3 entries, not columns + 1 = 4: "index pointer size 3 should be 4"); for a square matrix
+they pass the check and are read as the **transposed** matrix.  The repaired `to_dict` returns the
+matrix in both cases. -/
+theorem to_dict_csr_old_counterexample :
+    ((SpStore.csr exCsr23).toDictOld.bind Csc.fromDict).map Csc.wellFormed = .ok false ∧
+    ((SpStore.csr exCsr22).toDictOld.bind Csc.fromDict).map (fun c => (c.wellFormed, (cscToDense c).data))
+      = .ok (true, [1, 0, 2, 3]) ∧
+    (csrToDense exCsr22).data = [1, 2, 0, 3] ∧
+    (SpStore.csr exCsr22).toCsc.map (fun c => (cscToDense c).data) = some [1, 2, 0, 3] ∧
+    (SpStore.csr exCsr23).toCsc.map (fun c => (c.wellFormed, (cscToDense c).data)) = some (true, [1, 0, 3, 4, 0, 0]) ∧
+    SpStore.noIndices.toDictOld = .error .attr := by
+  refine ⟨?_, ?_, ?_, ?_, ?_, rfl⟩ <;> first | decide +kernel | rfl
 
 end HcipyVerif.Serial
